@@ -122,13 +122,15 @@ def line_obs(tier):
                     "evdns_base_parse_hosts_line(any line <= %d bytes in an exact object; the address parser %s): result and recorded (name, address) "
                     "entries == reference (comment stripped, first field = address without port, remaining fields = names in order); no leak" % (H, what),
                     ["C39_N=%d" % H, "C39_AF=%d" % af], unwind=max(H + 3, 12), unwindset=["evdns_base_parse_hosts_line.4:%d" % ((H - 1) // 2 + 2)], timeout=900, mem_gb=8))
-    o.append(ob("file_split_N%d" % F, "harness_file",
-                "evdns_base_resolv_conf_parse_impl / evdns_base_load_hosts_impl on any %d-byte file: every newline-separated piece reaches the line "
-                "routine exactly once, in order, with the caller's flags; buffer freed; ndots untouched (excluding KF-C39-ndots-reset)" % F,
-                ["C39_N=%d" % F, "C39_CUT_LINE_PARSERS", "KF_EXCLUDE_NDOTS_RESET"], unwind=F + 4, timeout=900, mem_gb=6))
+    fr = [["--replace-calls", "resolv_conf_parse_line:c39_line_rec"], ["--replace-calls", "evdns_base_parse_hosts_line:c39_hline_rec"]]
+    for hosts, what in ((0, "evdns_base_resolv_conf_parse_impl"), (1, "evdns_base_load_hosts_impl")):
+        o.append(ob("file_split_%s_N%d" % ("hosts" if hosts else "resolv", F), "harness_file",
+                    "%s on any %d-byte file: every newline-separated piece reaches the line routine exactly once, in order, with the caller's flags; "
+                    "buffer freed; ndots untouched (excluding KF-C39-ndots-reset)" % (what, F),
+                    ["C39_N=%d" % F, "C39_CUT_LINE_PARSERS", "KF_EXCLUDE_NDOTS_RESET", "C39_HOSTS=%d" % hosts, "C39_AF=1"], unwind=max(F + 4, 12), instrument=fr, timeout=900, mem_gb=6))
     o.append(ob("file_split_kf_ndots", "harness_file",
                 "the same on exactly the KF-C39-ndots-reset inputs (resolv.conf without search/domain line parsed with DNS_OPTION_SEARCH, ndots != 1)",
-                ["C39_N=4", "C39_CUT_LINE_PARSERS", "KF_ONLY_NDOTS_RESET"], unwind=8, timeout=900, mem_gb=6,
+                ["C39_N=4", "C39_CUT_LINE_PARSERS", "KF_ONLY_NDOTS_RESET", "C39_HOSTS=0", "C39_AF=1"], unwind=12, instrument=fr, timeout=900, mem_gb=6,
                 expect_fail=["C39: parsing a file without search/domain lines changed ndots"], known_finding="KF-C39-ndots-reset"))
     return o
 
